@@ -359,27 +359,39 @@ def gf_batch(srcs):
     return [("ok", "\n".join(res[k]) + "\n") for k in range(len(srcs))]
 
 
-def gf_many(srcs, size=10):
-    """gfortran results for many programs: batches first, single runs for the members of a failing batch"""
-    groups = [list(range(i, min(i + size, len(srcs)))) for i in range(0, len(srcs), size)]
-    out = [None] * len(srcs)
-    with concurrent.futures.ThreadPoolExecutor(max_workers=8) as ex:
-        for g, res in zip(groups, ex.map(lambda g: gf_batch([srcs[i] for i in g]), groups)):
-            if res is not None:
-                for i, x in zip(g, res):
-                    out[i] = x
-        todo = [i for i, x in enumerate(out) if x is None]
-        for i, x in zip(todo, ex.map(lambda i: gf(srcs[i]), todo)):
-            out[i] = x
+def gf_group(srcs, idxs):
+    """results for srcs[i], i in idxs: one batch, bisected when the batch fails"""
+    if len(idxs) == 1:
+        return {idxs[0]: gf(srcs[idxs[0]])}
+    res = gf_batch([srcs[i] for i in idxs])
+    if res is not None:
+        return dict(zip(idxs, res))
+    h = len(idxs) // 2
+    out = gf_group(srcs, idxs[:h])
+    out.update(gf_group(srcs, idxs[h:]))
     return out
 
 
-def run_gf_all(results):
+def gf_many(srcs, size=10):
+    groups = [list(range(i, min(i + size, len(srcs)))) for i in range(0, len(srcs), size)]
+    out = {}
+    with concurrent.futures.ThreadPoolExecutor(max_workers=8) as ex:
+        for res in ex.map(lambda g: gf_group(srcs, g), groups):
+            out.update(res)
+    return [out[i] for i in range(len(srcs))]
+
+
+def run_gf_all(results, risky=()):
+    """`risky`: ids of results whose inlined program is expected to misbehave (compiled in small groups)"""
     a = [r for r in results if r.get("status") == "ok" and r.get("out_src")]
     for r, x in zip(a, gf_many([r["src"] for r in a])):
         r["gf_orig"] = x
     b = [r for r in a if r["gf_orig"][0] == "ok"]
-    for r, x in zip(b, gf_many([r["out_src"] for r in b])):
+    safe = [r for r in b if id(r) not in risky]
+    for r, x in zip(safe, gf_many([r["out_src"] for r in safe])):
+        r["gf_inl"] = x
+    rk = [r for r in b if id(r) in risky]
+    for r, x in zip(rk, gf_many([r["out_src"] for r in rk], size=2)):
         r["gf_inl"] = x
 
 
@@ -441,8 +453,6 @@ def run(chk):
     # real code + gfortran (parallel: gfortran dominates)
     results = [evaluate(c[0], c[1], with_gf=False) for c in cases]     # fparser is not thread-safe
     chk.cov["phase_s"]["psyclone"] = round(time.time() - t0, 1)
-    run_gf_all(results)                                                # batched, threaded: gfortran dominates
-    chk.cov["phase_s"]["gfortran"] = round(time.time() - t0, 1)
     # model
     lines, idx = [], []
     for k, r in enumerate(results):
@@ -452,6 +462,10 @@ def run(chk):
             lines.append(sx(["run", r["prog"], [], [list(q) for q in c07_gen.queries(r["names"], r["modvar"])]]))
     out = common.driver("C07", lines)
     chk.cov["phase_s"]["driver"] = round(time.time() - t0, 1)
+    risky = {id(results[k]) for j, k in enumerate(idx)
+             if out[2 * j].startswith("(ok") and parse_sx(out[2 * j])[2:6] != [1, 1, 1, 1]}
+    run_gf_all(results, risky)                                         # batched, threaded: gfortran dominates
+    chk.cov["phase_s"]["gfortran"] = round(time.time() - t0, 1)
     dist = {"accepted": 0, "refused": 0, "unsupported": 0, "invalid_original": 0, "in_proved_domain": 0,
             "known_class": {}, "known_class_failing": {}, "refusal": {}, "kind": {}, "gfortran_pairs": 0}
     model = {}
